@@ -104,6 +104,37 @@ func c13(p *model.Prog, r *report.Result) {
 	c13Stap(p, r)
 	c13Guards(p, r)
 	c13List(p, r)
+	r.Rule("C13.NILF", "fields that lal itself compares with nil somewhere (unset until a later protocol step, or cleared at teardown) are, in every function reachable from the surfaces' entry points, dereferenced only behind the non-nil edge of a test of the same field expression or a dominating non-nil store; reviewed exceptions are listed per (function, field)")
+	var scope []*ssa.Function
+	for f := range reach {
+		if model.IsLal(f) && inFiles(p, f, c13Files) {
+			scope = append(scope, f)
+		}
+	}
+	nilFieldRule(p, r, "C13.NILF", scope, c13NilExceptions, 10, 10)
+}
+
+var c13NilExceptions = []nilFieldException{
+	{"gb28181.PubSession.runLoopTcp", "PubSession.listener", "Listen() sets isTcpFlag together with the listener; RunLoop dispatches on the same flag and its only caller (Group.StartRtpPub) starts it only after Listen succeeded; the field is never cleared (the nil test is Dispose's 'not started' answer)"},
+	{"gb28181.PubSession.runLoopUdp", "PubSession.udpConn", "as for listener: set by Listen() for the UDP mode RunLoop dispatches to; never cleared"},
+	{"httpflv.PullSession.pullContext$1", "PullSession.conn", "the goroutine is started by pullContext after connect() assigned conn and returned nil; the nil test is Dispose before Start"},
+	{"httpflv.PullSession.readFlvHeader", "PullSession.conn", "called from the read loop that pullContext starts after connect() assigned conn"},
+	{"httpflv.PullSession.writeHttpRequest", "PullSession.conn", "called by pullContext right after connect() assigned conn and returned nil"},
+	{"rtmp.ClientSession.WaitChan", "ClientSession.conn", "API contract: called after Start() returned nil (logic does so); tcpConnect assigned conn by then"},
+	{"rtmp.ClientSession.dealErrorMessage", "ClientSession.conn", "runs inside the read loop, which starts after tcpConnect assigned conn"},
+	{"rtmp.ClientSession.notifyDoResultSucc", "ClientSession.conn", "runs inside the read loop, which starts after tcpConnect assigned conn"},
+	{"rtmp.ClientSession.writeAcknowledgementIfNeeded", "ClientSession.conn", "runs inside the read loop, which starts after tcpConnect assigned conn"},
+	{"rtprtcp.RtpPacketList.PeekFirst", "RtpPacketListItem.Next", "documented contract 'caller guarantees the list is not empty'; the callers test Size > 0 or Head.Next first, and Size == number of items is decided by C13.LIST / C07.R3"},
+	{"rtprtcp.RtpPacketList.PopFirst", "RtpPacketListItem.Next", "as PeekFirst"},
+	{"rtsp.BaseInSession.SetObserver$1", "BaseInSession.observer", "the goroutine is started right after SetObserver stored the (non-nil) observer"},
+	{"rtsp.BaseInSession.handleRtpPacket", "BaseInSession.observer", "PullSession constructs the session with its observer; for PubSession Group.AddRtspPubSession installs it while ANNOUNCE is handled, before SETUP/RECORD create any RTP source (UDP read loops, interleaved channel)"},
+	{"rtsp.BaseInSession.onAvPacketUnpacked", "BaseInSession.observer", "as handleRtpPacket (called from it through the unpackers)"},
+	{"rtsp.BaseInSession.onAvPacket", "BaseInSession.observer", "as handleRtpPacket (called from it through the AvPacketQueue)"},
+	{"rtsp.ClientCommandSession.WaitChan", "ClientCommandSession.conn", "API contract: called after Start() returned nil; connect() assigned conn by then"},
+	{"rtsp.ClientCommandSession.runReadLoop", "ClientCommandSession.conn", "started by doContext after connect() assigned conn and returned nil"},
+	{"rtsp.ClientCommandSession.writeCmd", "ClientCommandSession.conn", "every command is written by doContext after connect() assigned conn and returned nil"},
+	{"rtsp.PushSession.push", "PushSession.sdpCtx", "Start() returns an error for a nil sdpCtx before it calls push()"},
+	{"rtsp.ServerCommandSession.feedSdp", "ServerCommandSession.subSession", "handleDescribe assigns subSession before calling it; the exported FeedSdp is called only by that SubSession itself (SubSession.FeedSdp)"},
 }
 
 // c13Factory: the unpacker factory terminates the process for a payload type it does not know;
